@@ -717,8 +717,7 @@ class _Everything:
 
 def _allocated_as(cname):
     def view(ex, st, self):
-        a = st.alloc if st.alloc is not None else z3.Const("alloc0", z3.ArraySort(T.RefSort, z3.BoolSort()))
-        return Val(Set(Ref(cname)), a)
+        return Val(Set(Ref(cname)), ex.alloc_set(st))
 
     return view
 
